@@ -187,9 +187,9 @@ def tlc_stats(out):
         st["depth"] = int(m.group(1))
     return st
 
-def validate_trace(trace_path, timeout=3000):
-    """TLC TraceContract over an ndjson trace. Returns (violations, stats)."""
-    rc, out, dt = run_tlc("TraceContract", env_extra={"TRACE": trace_path}, timeout=timeout,
+def validate_trace(trace_path, timeout=3000, module="TraceContract"):
+    """TLC trace validation (TraceContract by default) over an ndjson trace. Returns (violations, stats)."""
+    rc, out, dt = run_tlc(module, env_extra={"TRACE": trace_path}, timeout=timeout,
                           java_extra="-Dtlc2.tool.queue.IStateQueue=StateDeque")
     m = re.search(r'<<"VIOLATIONS", "(.*)">>', out)
     if "STOPPED_AT" in out or m is None or "No error has been found" not in out:
